@@ -10,3 +10,5 @@ import "net"
 func verifDial(network, addr string) (net.Conn, error, bool) { return nil, nil, false }
 
 func verifYield(point string) {}
+
+func verifNewConn(c *Conn) {}
